@@ -278,8 +278,9 @@ def rule_output_provenance(ctx):
             for s in blk["stmts"]:
                 if s["k"] == "assign" and any(e["k"] in ("index", "constindex") for e in s["place"]["proj"]) and "u8" in s["place"]["ty"]:
                     direct.append(b.short)
-    ctx.check(len(copies) == 3 and not direct, R, "copies-only", "the caller's output buffer is written only by the three prefix copies of the body readers "
-              "(length-delimited, close-delimited, chunk data), whose alignment C07/C08 check", detail=copies + direct)
+    ctx.check(len(copies) >= 2 and not direct, R, "copies-only", "the caller's output buffer is written only by the prefix copies of the body readers "
+              "(length-/close-delimited and chunk data; %d copy sites), whose alignment C07/C08 check; no element-wise store exists" % len(copies),
+              detail=copies + direct)
 
 
 def rule_no_hang(ctx):
@@ -302,7 +303,13 @@ def rule_no_hang(ctx):
             calls = [short(callee_path(t) or "") for bb, t in b.calls() if bb in body]
             if any(c.endswith("Dechunker::parse_input") for c in calls):
                 # progress: the loop leaves when the decoder consumed nothing; consumed is bounded by the input (R12.2)
-                ok = _has_exit_on_zero(b, body)
+                # decided on the abstract paths of the loop (R07.3): no path enters another decoder call unless the previous
+                # one consumed something -- whatever the shape of the exit tests
+                from .framework import Ctx as _Ctx
+                tmp = _Ctx("C07", ctx.tier, prog)
+                c07.rule_outer_loop(tmp)
+                ex = [i for i in tmp.instances if i.rule == "R07.3" and i.key == "exits"]
+                ok = bool(ex) and all(i.status == "ok" for i in ex) if b.short == "BodyReader::read_chunked" else _has_exit_on_zero(b, body)
                 ctx.check(ok, R, key, "cursor loop: leaves as soon as one decoder call consumes nothing; each continuing iteration advances "
                           "input_used, which is bounded by the input length", loc=body_loc(b))
                 continue
